@@ -281,6 +281,8 @@ def subst_hole(s, body):
         return (k, [subst_hole(x, body) for x in s[1]])
     if k == "loop":
         return (k, subst_hole(s[1], body))
+    if k == "relabel":
+        return (k, subst_hole(s[1], body)) + tuple(s[2:])
     if k == "withx":
         return (k, s[1], subst_hole(s[2], body))
     if k == "ifx":
@@ -296,7 +298,7 @@ def has_hole(s):
         return True
     if k in ("seq", "choice"):
         return any(has_hole(x) for x in s[1])
-    if k == "loop":
+    if k in ("loop", "relabel"):
         return has_hole(s[1])
     if k == "withx":
         return has_hole(s[2])
@@ -317,6 +319,8 @@ def shift_reraise(s, d, depth=0):
         return (k, [shift_reraise(x, d, depth) for x in s[1]])
     if k == "loop":
         return (k, shift_reraise(s[1], d, depth))
+    if k == "relabel":
+        return (k, shift_reraise(s[1], d, depth)) + tuple(s[2:])
     if k == "withx":
         return (k, s[1], shift_reraise(s[2], d, depth))
     if k == "ifx":
@@ -331,7 +335,8 @@ def shift_reraise(s, d, depth=0):
 # the translator proper
 # ---------------------------------------------------------------------------------------------------
 class Translator:
-    def __init__(self, repo, mode="yaml", collect_unknown=False):
+    def __init__(self, repo, mode="yaml", collect_unknown=False, implicit_sites=None):
+        self.implicit_sites = [t[:3] for t in T.IMPLICIT_SITES] if implicit_sites is None else implicit_sites
         self.ix = Index(repo)
         self.repo = repo
         self.mode = mode
@@ -356,9 +361,9 @@ class Translator:
         raise TieBroken("translate_exn_ir: %s at %s" % (msg, where), witness={"where": where, "what": msg})
 
     # -- sites ------------------------------------------------------------------------------------
-    def site(self, fn, node, module, cls_expr, kind, subclasses=False):
+    def site(self, fn, node, module, cls_expr, kind, subclasses=False, extra="{}"):
         """symbolic raise: resolved to concrete site ids once the live class table is known"""
-        return ("raise_sym", fn.qual, getattr(node, "lineno", 0), module, cls_expr, kind, subclasses)
+        return ("raise_sym", fn.qual, getattr(node, "lineno", 0), module, cls_expr, kind, subclasses, extra)
 
     def ext_raises(self, fn, node, classes, kind):
         """summary raise: "C" raises exactly class C, "C+" raises C or any subclass of C in the universe, "C!" ALWAYS raises C
@@ -416,7 +421,7 @@ class Translator:
         self.bodies[qual] = None  # in progress
         ctx = {"handlers": [], "imports": {}, "nested_vars": self.nested_parser_vars(fn)}
         body = self.block(fn, fn.node.body, ctx)
-        for site_fn, cls, why in T.IMPLICIT_SITES:
+        for site_fn, cls, why in self.implicit_sites:
             if site_fn == qual:
                 body = seq([choice([SKIP, self.site(fn, fn.node, "@abs", cls, "implicit: " + why, False)]), body])
         self.bodies[qual] = body
@@ -590,7 +595,13 @@ class Translator:
                 if key in T.RAISED_VARIABLES:
                     return seq([pre] + [choice([self.site(fn, s, "@abs", c, "raise", False) for c in T.RAISED_VARIABLES[key][0]])])
                 return self.broken(fn, s, "raise of local variable %r (not a handler name)" % cls_node.id)
-        return seq([pre, self.site(fn, s, fn.module, src, "raise", False)])
+        # function-local imports used in the class expression (`import yaml` ... `raise yaml.YAMLError(...)`)
+        extra = {}
+        for n in ast.walk(cls_node):
+            if isinstance(n, ast.Name) and n.id in ctx["imports"]:
+                t = ctx["imports"][n.id]
+                extra[n.id] = list(t) if t else None
+        return seq([pre, self.site(fn, s, fn.module, src, "raise", False, json.dumps(extra, sort_keys=True))])
 
     def args_of(self, fn, call, ctx):
         return seq([self.expr(fn, a, ctx) for a in call.args] + [self.expr(fn, k.value, ctx) for k in call.keywords])
@@ -686,7 +697,7 @@ class Translator:
                     r = rec(x, d)
                     if r is not None:
                         return r
-            if k == "loop":
+            if k in ("loop", "relabel"):
                 return rec(s[1], d)
             if k == "withx":
                 return rec(s[2], d)
@@ -996,7 +1007,12 @@ class Translator:
                     return self.broken(fn, e, "CALLBACKS[%s] names unknown function %s" % (key, pat))
                 calls.append(pat)
         parts = [self.pkg_call([q], by_name=True, fn=fn, node=e, allow_all_skipped=True) for q in calls]
-        return seq([("loop", choice([SKIP] + parts)) if parts else SKIP, self.ext_raises(fn, e, spec.get("raises", []), "ext:" + key)])
+        inner = ("loop", choice([SKIP] + parts)) if parts else SKIP
+        if spec.get("catches") and inner != SKIP:
+            inner = ("try", inner, [(("abs", list(spec["catches"])), SKIP)], SKIP, SKIP)
+        if spec.get("relabel") and inner != SKIP:
+            inner = ("relabel", inner, fn.qual, getattr(e, "lineno", 0), "relabel:" + key)
+        return seq([inner, self.ext_raises(fn, e, spec.get("raises", []), "ext:" + key)])
 
     # -- live queries -----------------------------------------------------------------------------
     def query_live(self, abs_classes):
@@ -1022,7 +1038,7 @@ def collect_raise_syms(s, acc):
     elif k in ("seq", "choice"):
         for x in s[1]:
             collect_raise_syms(x, acc)
-    elif k == "loop":
+    elif k in ("loop", "relabel"):
         collect_raise_syms(s[1], acc)
     elif k == "withx":
         collect_raise_syms(s[2], acc)
@@ -1037,10 +1053,10 @@ def collect_raise_syms(s, acc):
         collect_raise_syms(s[4], acc)
 
 
-def build(repo=None, mode="yaml", collect_unknown=False):
+def build(repo=None, mode="yaml", collect_unknown=False, implicit_sites=None):
     """returns the resolved program: dict with functions, sites, classes, subclass matrix"""
     repo = repo or framework.REPO
-    tr = Translator(repo, mode, collect_unknown)
+    tr = Translator(repo, mode, collect_unknown, implicit_sites)
     for q in entry_quals():
         if q not in tr.ix.fns:
             raise TieBroken("entry point %s not found" % q)
@@ -1059,7 +1075,7 @@ def build(repo=None, mode="yaml", collect_unknown=False):
         if s[3] == "@abs":
             abs_classes.add(s[4])
         else:
-            tr.pending_exprs.setdefault((s[3], s[4], "{}"), None)
+            tr.pending_exprs.setdefault((s[3], s[4], s[7]), None)
     for q, b in tr.bodies.items():
         for cs in iter_handler_classes(b):
             if cs[0] == "abs":
@@ -1093,11 +1109,11 @@ def build(repo=None, mode="yaml", collect_unknown=False):
     def resolve(s):
         k = s[0]
         if k == "raise_sym":
-            _, fnq, line, module, cls_expr, kind, with_subs = s
+            _, fnq, line, module, cls_expr, kind, with_subs, extra = s
             if module == "@abs":
                 names = [cls_expr]
             else:
-                names = expr_val[(module, cls_expr, "{}")]
+                names = expr_val[(module, cls_expr, extra)]
                 if len(names) != 1:
                     raise TieBroken("raise of %r in %s does not evaluate to one exception class: %s" % (cls_expr, fnq, names))
             outs = []
@@ -1117,6 +1133,12 @@ def build(repo=None, mode="yaml", collect_unknown=False):
             return (k, resolve(s[1]), resolve(s[2]))
         if k == "try":
             return (k, resolve(s[1]), [(handler_cls(cs), resolve(h)) for cs, h in s[2]], resolve(s[3]), resolve(s[4]))
+        if k == "relabel":
+            # whatever Exception subclass escapes the inner statement is re-labelled as a raise site of its own at
+            # (function, line): most specific classes first, so that every class is caught by its own handler
+            _, inner, fnq, line, kind = s
+            excs = sorted((c for c in classes if "builtins.Exception" in mro[c]), key=lambda c: (-len(mro[c]), c))
+            return ("try", resolve(inner), [([cidx[c]], ("raise", site_id(fnq, line, c, kind))) for c in excs], SKIP, SKIP)
         if k == "hole":
             return SKIP  # body of a context-manager function called as a plain function
         return s
@@ -1149,7 +1171,7 @@ def iter_handler_classes(s):
     if k in ("seq", "choice"):
         for x in s[1]:
             yield from iter_handler_classes(x)
-    elif k == "loop":
+    elif k in ("loop", "relabel"):
         yield from iter_handler_classes(s[1])
     elif k == "withx":
         yield from iter_handler_classes(s[2])
@@ -1266,8 +1288,9 @@ def find_witness(prog, entry_q, x, site, max_nodes=400000):
     classes, mro = prog["classes"], prog["mro"]
     site_cls = [prog["cidx"][s["cls"]] for s in prog["sites"]]
     supers = [set(prog["cidx"][d] for d in mro[c]) for c in classes]
-    failed = set()
+    failed, found = prog.setdefault("_wit_memo", (set(), {}))
     budget = [max_nodes]
+    guard_hits = [0]
 
     def may(s, xx, stk, goal):
         e, n, a = esc(s, xx, [{j: () for j in [t]} for t in reversed(stk)], "?")
@@ -1275,10 +1298,16 @@ def find_witness(prog, entry_q, x, site, max_nodes=400000):
             return goal[1] in e
         return n if goal[0] == "normal" else a
 
+    def dist(s, xx, stk, i):
+        """length of the shortest known call path from s to site i (ordering heuristic only)"""
+        p_ = esc(s, xx, [{t: ()} for t in reversed(stk)], "?")[0].get(i)
+        return len(p_) if p_ is not None else 10 ** 6
+
     def find(s, xx, stk, goal, calls):
         """stk: innermost first. Returns list of bits or None."""
         budget[0] -= 1
         if budget[0] < 0:
+            guard_hits[0] += 1  # not a definitive failure
             return None
         k = s[0]
         if k == "skip":
@@ -1292,45 +1321,53 @@ def find_witness(prog, entry_q, x, site, max_nodes=400000):
         key = (id(s), xx, tuple(stk), goal)
         if key in failed:
             return None
+        if key in found:
+            return found[key]
         if not may(s, xx, stk, goal):
             failed.add(key)
             return None
         res = None
+        hits0 = guard_hits[0]
         if k == "call":
             q = s[1]
             goals = [goal] if goal[0] == "raise" else ([("normal",), ("abrupt",)] if goal[0] == "normal" else [])
             for g in goals:
                 ck = (q, xx, g)
                 if ck in calls:
+                    guard_hits[0] += 1
                     continue
                 res = find(prog["bodies"][q], xx, [], g, calls | {ck})
                 if res is not None:
                     break
-            if res is None and calls:
-                return None  # may succeed from another call stack: do not memoise
         elif k == "seq":
             items = s[1]
-
-            def seq_from(n, acc):
-                if n == len(items) - 1:
-                    r = find(items[n], xx, stk, goal, calls)
-                    return None if r is None else acc + r
-                # stop here with the goal (non-normal goals only) ...
-                if goal[0] != "normal":
-                    r = find(items[n], xx, stk, goal, calls)
-                    if r is not None:
-                        return acc + r
-                # ... or complete normally and go on
-                r = find(items[n], xx, stk, ("normal",), calls)
-                if r is None:
-                    return None
-                return seq_from(n + 1, acc + r)
-
-            res = seq_from(0, [])
+            if goal[0] == "normal":
+                stops = [len(items) - 1]
+            else:
+                stops = [n for n in range(len(items)) if may(items[n], xx, stk, goal)]
+                if goal[0] == "raise":
+                    stops.sort(key=lambda n: (dist(items[n], xx, stk, goal[1]), n))
+            for stop in stops:
+                acc = []
+                for n in range(stop):
+                    r = find(items[n], xx, stk, ("normal",), calls)
+                    if r is None:
+                        acc = None
+                        break
+                    acc += r
+                if acc is None:
+                    continue
+                r = find(items[stop], xx, stk, goal, calls)
+                if r is not None:
+                    res = acc + r
+                    break
         elif k == "choice":
             items = s[1]
-            for n, it in enumerate(items):
-                r = find(it, xx, stk, goal, calls)
+            order = list(range(len(items)))
+            if goal[0] == "raise":
+                order.sort(key=lambda n: (dist(items[n], xx, stk, goal[1]), n))
+            for n in order:
+                r = find(items[n], xx, stk, goal, calls)
                 if r is not None:
                     res = [False] * n + ([True] if n < len(items) - 1 else []) + r
                     break
@@ -1385,8 +1422,11 @@ def find_witness(prog, entry_q, x, site, max_nodes=400000):
                                 break
         else:
             raise AssertionError(k)
-        if res is None and not calls:
-            failed.add(key)
+        if res is None:
+            if guard_hits[0] == hits0:
+                failed.add(key)  # no recursion guard was hit below: the failure does not depend on the call stack
+        else:
+            found[key] = res
         return res
 
     bits = find(("call", entry_q), x, [], ("raise", site), frozenset())
@@ -1526,6 +1566,40 @@ def emit(prog, path):
             rows.append("(%d, (%s, %s), [%s])" % (k, "true" if mt else "false", "true" if mf else "false", "; ".join(str(i) for i in ids)))
     L.append("(* (finding class, (applies when exit_on_error=true, applies when exit_on_error=false), raise sites) *)")
     L.append("Definition ir_finding_sites : list (N * (bool * bool) * list N) := [%s]." % ";\n  ".join(rows))
+    # witnesses (oracles for C03ExnFlow.run), one per finding class that still escapes, plus one per mode for the channel
+    def g_wit(w):
+        if w is None:
+            return "None"
+        x, e, i, bits = w
+        return "Some (%s, %d, %d, [%s])" % ("true" if x else "false", e, i, "; ".join("true" if b else "false" for b in bits))
+
+    prog["witnesses"] = {}
+    for k, key in sorted(T.FINDING_KEYS.items()):
+        w = None
+        for x in (False, True):
+            for m in ENTRY_METHODS[:-1]:
+                q = "%s.%s" % (ENTRY_CLASS, m)
+                for i in sorted(prog["table"][(q, x)][0]):
+                    if w is None and not allowed(prog, x, i) and finding_of_site(prog, i, x) == k:
+                        bits = find_witness(prog, q, x, i)
+                        if bits is None:
+                            raise TieBroken("no execution witness found for escaping site %d (%s) of %s, exit_on_error=%s" % (i, prog["sites"][i], q, x))
+                        w = (x, prog["fidx"][q], i, bits)
+        prog["witnesses"][key] = None if w is None else {"exit_on_error": w[0], "entry": prog["functions"][w[1]], "site": prog["sites"][w[2]], "oracle_bits": len(w[3])}
+        L.append("Definition wit_finding_%d : option (bool * N * N * list bool) := %s." % (k, g_wit(w)))
+    for x in (False, True):
+        q = "%s.parse_args" % ENTRY_CLASS
+        w = None
+        for i in sorted(prog["table"][(q, x)][0]):
+            s_ = prog["sites"][i]
+            if w is None and s_["fn"] == "%s.error" % ENTRY_CLASS and allowed(prog, x, i) and finding_of_site(prog, i, x) == 0:
+                bits = find_witness(prog, q, x, i)
+                if bits is not None:
+                    w = (x, prog["fidx"][q], i, bits)
+        if w is None:
+            raise TieBroken("ArgumentParser.error does not reach the documented channel from parse_args (exit_on_error=%s)" % x)
+        L.append("Definition wit_channel_%s : option (bool * N * N * list bool) := %s." % ("true" if x else "false", g_wit(w)))
+    L.append("Definition wit_fuel : nat := 4000.")
     text = "\n".join(L) + "\n"
     tmp = path + ".tmp"
     with open(tmp, "w") as f:
@@ -1563,14 +1637,16 @@ def allowed(prog, x, i):
     return cls == T.EXIT0 or cls == (T.EXIT2 if x else T.ARGERR)
 
 
-def translate():
-    prog = build()
+def translate(implicit_sites=None):
+    prog = build(implicit_sites=implicit_sites)
     path = os.path.join(framework.COQ, "Gen", "C03ExnIR.v")
     os.makedirs(os.path.dirname(path), exist_ok=True)
     emit(prog, path)
     meta = os.path.join(framework.COQ, "Gen", "C03ExnIR.json")
     with open(meta, "w") as f:
-        json.dump({k: prog[k] for k in ("functions", "sites", "classes", "mro", "entries", "rounds")}, f)
+        meta_out = {k: prog[k] for k in ("functions", "sites", "classes", "mro", "entries", "rounds")}
+        meta_out["boundary"] = sorted(T.BOUNDARY)
+        json.dump(meta_out, f)
     return prog
 
 
